@@ -110,5 +110,8 @@ def run(fast=False):
             del t4[i]
             break
     expect("stream: one frame removed -> rejected", validate_trace(d, "t_del", "StreamTrace", t4, consts), True, ["C08", "C10"])
+    import u64cross
+    n = u64cross.run(seed=11, n=400 if fast else 1500)
+    vlib.log("  %-44s ok (%d assumptions evaluated by TLC)" % ("U64.tla agrees with big-integer arithmetic", n))
     vlib.log("selftest %s" % ("passed" if ok else "FAILED"))
     return 0 if ok else 2
